@@ -15,7 +15,11 @@
 package toml
 
 import (
+	"fmt"
 	"io"
+	"math"
+	"math/big"
+	"strings"
 
 	"github.com/pelletier/go-toml/v2"
 
@@ -43,5 +47,56 @@ func (e *Encoder) Encode(val cue.Value) error {
 	if err := val.Decode(&v); err != nil {
 		return err
 	}
+	v, err := representable(v, nil)
+	if err != nil {
+		return err
+	}
 	return e.encoder.Encode(v)
+}
+
+// representable checks that the decoded value v can be written as TOML
+// without changing its meaning, and returns it in the form the encoder
+// expects. TOML has no null, and its integers and floats are 64 bits wide;
+// the underlying encoder would silently drop the former and write the
+// latter as strings.
+func representable(v any, path []string) (any, error) {
+	errorf := func(format string, args ...any) error {
+		where := "top-level value"
+		if len(path) > 0 {
+			where = strings.Join(path, ".")
+		}
+		return fmt.Errorf("toml: %s: %s", where, fmt.Sprintf(format, args...))
+	}
+	switch v := v.(type) {
+	case nil:
+		return nil, errorf("null cannot be represented in TOML")
+	case *big.Int:
+		if !v.IsInt64() {
+			return nil, errorf("integer %v is out of range for TOML (64 bits)", v)
+		}
+		return v.Int64(), nil
+	case *big.Float:
+		f, _ := v.Float64()
+		if math.IsInf(f, 0) || (f == 0 && v.Sign() != 0) {
+			return nil, errorf("float %v is out of range for TOML (64 bits)", v.Text('g', 10))
+		}
+		return f, nil
+	case []any:
+		for i, elem := range v {
+			elem, err := representable(elem, append(path, fmt.Sprint(i)))
+			if err != nil {
+				return nil, err
+			}
+			v[i] = elem
+		}
+	case map[string]any:
+		for k, elem := range v {
+			elem, err := representable(elem, append(path, k))
+			if err != nil {
+				return nil, err
+			}
+			v[k] = elem
+		}
+	}
+	return v, nil
 }
